@@ -1,5 +1,6 @@
 import EqsigVerif.Model.Switched
 import EqsigVerif.Lemmas.Switched
+import EqsigVerif.Lemmas.SwitchedExcursions
 
 /-!
 # C12 — Zero crossings and per-half-cycle (switched) peaks are exact
@@ -51,7 +52,7 @@ example : zeroCrossings [0, 0, 1, -1, 0, 0] true 0 = [0, 1, 3, 4, 5] ∧ zeroCro
   decide +kernel
 
 /-- **C12.a** (second half): the `tol = 0` result is strictly ascending (hence duplicate-free). -/
-theorem zc_strict_ascending (v : List ℚ) (keepAdj : Bool) :
+theorem zc_strict_ascending (v : List ℚ) (hv : v ≠ []) (keepAdj : Bool) :
     (zeroCrossings v keepAdj 0).Pairwise (· < ·) := by
   rw [zeroCrossings_zero]; exact allZc_pairwise v keepAdj
 
@@ -98,6 +99,16 @@ example : peaks [0, 2, 1, 2, -1, 1, 1, 3/10, -1, 0, 0, 1/5, 1, 1/5] = [0, 1, 2, 
     switchedPeaks [0, 2, 1, 2, -1, 1, 1, 3/10, -1, 0, 0, 1/5, 1, 1/5] 0 = [0, 1, 4, 5, 8, 12] := by decide +kernel
 example : switchedPeaks [5, 1, 3, -1] 0 = [0, 3] := by decide +kernel
 
+/-- C12.c, corollary: the switched result is strictly ascending whenever `peaks v` is — `hpw` is the first conjunct
+of C11.a (`(EqsigVerif.Props.C11.peaks_shape v hv).1`, non-constant `v`).  Holds for every `tol`. -/
+theorem switched_strict_ascending (v : List ℚ) (hv : v ≠ []) (tol : ℚ)
+    (hpw : (EqsigVerif.Model.Peaks.peaks v).Pairwise (· < ·)) :
+    (switchedPeaks v tol).Pairwise (· < ·) :=
+  hpw.sublist (switchedPeaks_sublist_peaks v tol)
+
+example : (switchedPeaks [5, 1, 3, -1] 0).Pairwise (· < ·) :=
+  switched_strict_ascending [5, 1, 3, -1] (by simp) 0 (by decide +kernel)
+
 /-- **C12.d** `switched_global_max`: the global `max |v|` is attained at a reported index.
 `hdom` (every sample is dominated in `|·|` by a peak) is the consequence of C11.b proved separately. -/
 theorem switched_global_max (v : List ℚ) (hv : v ≠ [])
@@ -135,5 +146,77 @@ example : ¬ ∀ (v : List ℚ) (tol : ℚ), v ≠ [] → 0 < tol →
   rw [e1, e0] at h1
   revert h1
   decide
+
+
+/-- **C12.e** `switched_excursions` (`tol = 0`, non-constant series).  `SameExc v i j` says that `i` and `j` lie in the
+same excursion: every sample between them (inclusive) has the strict sign of `v[i]`; the excursion of a non-zero
+sample `i` is `{j | SameExc v i j}` (a maximal run of samples of one strict sign).
+(1) The excursion of every non-zero sample contains exactly one reported index `r`, and `|v[r]|` is the largest
+`|value|` of that excursion.  (2) Every reported index is a peak (turning point or end point), and it is either
+zero-valued or lies in an excursion (of which it is, by (1), the unique reported index).
+The hypotheses `hshape`, `hseg` are, verbatim, the conclusions of C11.a (`EqsigVerif.Props.C11.peaks_shape`) and
+of the first conjunct of C11.b (`(EqsigVerif.Props.C11.peaks_segments v hv).1`) for a non-constant series; they are
+taken as explicit hypotheses because `Lemmas/Peaks` is built by another agent.
+(Constant series are outside C11.a/b: there `peaks v = [0, 0]`, a non-zero constant series reports `[0]`,
+the zero series reports `[0, 0]` and has no excursion.) -/
+theorem switched_excursions (v : List ℚ) (hv : v ≠ [])
+    (hshape : (peaks v).Pairwise (· < ·) ∧ (peaks v).head? = some 0 ∧
+      ∃ k, (peaks v).getLast? = some k ∧ 0 < k ∧ k < v.length ∧ v.getD (k-1) 0 ≠ v.getD k 0 ∧
+        ∀ j, k ≤ j → j < v.length → v.getD j 0 = v.getD k 0)
+    (hseg : ∀ k, k + 1 < (peaks v).length →
+      (v.getD ((peaks v).getD k 0) 0 < v.getD ((peaks v).getD (k+1) 0) 0 ∧
+        ∀ s t, (peaks v).getD k 0 ≤ s → s ≤ t → t ≤ (peaks v).getD (k+1) 0 → v.getD s 0 ≤ v.getD t 0) ∨
+      (v.getD ((peaks v).getD (k+1) 0) 0 < v.getD ((peaks v).getD k 0) 0 ∧
+        ∀ s t, (peaks v).getD k 0 ≤ s → s ≤ t → t ≤ (peaks v).getD (k+1) 0 → v.getD t 0 ≤ v.getD s 0)) :
+    (∀ i, i < v.length → v.getD i 0 ≠ 0 →
+      ∃ r ∈ switchedPeaks v 0, SameExc v i r ∧
+        (∀ j, j < v.length → SameExc v i j → |v.getD j 0| ≤ |v.getD r 0|) ∧
+        ∀ r' ∈ switchedPeaks v 0, SameExc v i r' → r' = r) ∧
+    (∀ r ∈ switchedPeaks v 0, r ∈ peaks v ∧ (v.getD r 0 = 0 ∨ SameExc v r r)) := by
+  refine ⟨fun i hi hne => excursion_reported v hshape hseg i hi hne, ?_⟩
+  intro r hr
+  refine ⟨(switchedPeaks_sublist_peaks v 0).subset hr, ?_⟩
+  by_cases h : v.getD r 0 = 0
+  · exact Or.inl h
+  · exact Or.inr (SameExc.refl h)
+
+/-- non-vacuity: the C11 hypotheses hold on `[1, 2, -1, -3, -3]` (`peaks = [0, 1, 3]`), so the theorem applies -/
+example : ∃ r ∈ switchedPeaks [1, 2, -1, -3, -3] 0, SameExc [1, 2, -1, -3, -3] 2 r := by
+  have hP : peaks [1, 2, -1, -3, -3] = [0, 1, 3] := by decide +kernel
+  have h := switched_excursions [1, 2, -1, -3, -3] (by simp) ?shape ?seg
+  · obtain ⟨r, hr, hs, _⟩ := h.1 2 (by decide) (by decide +kernel)
+    exact ⟨r, hr, hs⟩
+  case shape =>
+    rw [hP]
+    refine ⟨by decide, by decide, 3, by decide, by decide, by decide, by decide +kernel, ?_⟩
+    intro j h1 h2
+    have : j = 3 ∨ j = 4 := by simp at h2; omega
+    rcases this with rfl | rfl <;> rfl
+  case seg =>
+    rw [hP]
+    intro k hk
+    have : k = 0 ∨ k = 1 := by simp at hk; omega
+    rcases this with rfl | rfl
+    · refine Or.inl ⟨by decide +kernel, ?_⟩
+      intro s t h1 h2 h3
+      have hs : s = 0 ∨ s = 1 := by simp at h1 h3; omega
+      have ht : t = 0 ∨ t = 1 := by simp at h1 h3; omega
+      rcases hs with rfl | rfl <;> rcases ht with rfl | rfl <;> first | (exfalso; omega) | decide +kernel
+    · refine Or.inr ⟨by decide +kernel, ?_⟩
+      intro s t h1 h2 h3
+      have hs : s = 1 ∨ s = 2 ∨ s = 3 := by simp at h1 h3; omega
+      have ht : t = 1 ∨ t = 2 ∨ t = 3 := by simp at h1 h3; omega
+      rcases hs with rfl | rfl | rfl <;> rcases ht with rfl | rfl | rfl <;>
+        first | (exfalso; omega) | decide +kernel
+
+
+/-- C12.e, complement for constant series (not covered by C11.a/b): a non-zero constant series is a single
+excursion and reports exactly index `0`; the zero series has no excursion and reports `[0, 0]`
+(`peaks = [0, 0]`, two zero-valued groups) — as the Python code. -/
+theorem switched_const (c : ℚ) (n : ℕ) :
+    switchedPeaks (List.replicate (n+1) c) 0 = if c = 0 then [0, 0] else [0] :=
+  switchedPeaks_replicate c n
+
+example : switchedPeaks [3, 3, 3] 0 = [0] ∧ switchedPeaks [0, 0] 0 = [0, 0] := by decide +kernel
 
 end EqsigVerif.Props.C12
